@@ -291,7 +291,8 @@ fn decompress_multiple_internal(
         monitor.check_progress(current_data.len() as u64)?;
     } else if has_bzip2 {
         log::debug!("Decompressing BZip2");
-        current_data = algorithms::bzip2::decompress(&current_data, expected_size * 4)?;
+        // The size of this intermediate stage is not recorded anywhere
+        current_data = algorithms::bzip2::decompress_unsized(&current_data, expected_size)?;
         monitor.check_progress(current_data.len() as u64)?;
     } else if has_sparse {
         log::debug!("Decompressing Sparse");
